@@ -18,7 +18,7 @@
    internals of the dependency crates (their panic behaviour is part of the oracles). *)
 From MelVerif Require Import STF.Model VM.Exec STF.Proofs.Pool STF.Proofs.Counts STF.Proofs.Total STF.Proofs.Supply
   STF.Proofs.HashFacts STF.Proofs.NoPanicBatch STF.Proofs.Witness STF.Proofs.SealLift STF.Proofs.SealInv STF.Proofs.SealCounts
-  STF.Proofs.History STF.Proofs.SealTotal STF.Proofs.Witness5 STF.Proofs.Witness6.
+  STF.Proofs.SealCoins STF.Proofs.SealSupply STF.Proofs.History STF.Proofs.SealTotal STF.Proofs.Witness5 STF.Proofs.Witness6.
 Open Scope N_scope.
 
 Theorem C09_covenants_terminate : forall O prog hp, run O prog hp <> OutOfFuel.
@@ -127,7 +127,7 @@ Theorem C09_seal_never_panics : forall SO s,
   Good s ->
   (* C16: the built-in pools that exist are live, and the block's withdrawals ask for less than they recorded *)
   (forall k p, builtin k -> get_pool s k = Some p -> live p) ->
-  (forall k, builtin k -> forall s2 s3 p3,
+  (forall k, builtin k -> is_Some (get_pool (create_builtins s) k) -> forall s2 s3 p3,
      process_swaps (create_builtins s) = Ok s2 -> process_deposits SO s2 = Ok s3 -> get_pool s3 k = Some p3 ->
      sat_sum (map (fun t => cd_value (out0 t)) (txs_for_pool (List.filter (is_withdraw_request SO s3) (sorted_txs s3)) k)) < p_liqs p3) ->
   (* bounds *)
@@ -137,12 +137,43 @@ Theorem C09_seal_never_panics : forall SO s,
 Proof. exact seal_total. Qed.
 Print Assumptions C09_seal_never_panics.
 
+(* the withdrawal hypothesis is what C16's backing gives: with room to spare after the bootstrap (tokens in coins
+   + tokens parked in reserves + 1 <= recorded liquidity), the block cannot ask a built-in pool for all of its
+   liquidity; so sealing is total on every state that satisfies C20's and C16's invariants, under the side
+   conditions of the conservation theorems (K: pool names with distinct codes and distinct liquidity tokens that
+   cover the block's requests; request coins as declared; sums below 2^128) and the two bounds *)
+Theorem C09_seal_total_from_invariants : forall K, NoDup (map poolkey_code K) -> forall SO, In MS K /\ In ME K /\ In ES K ->
+  (forall k1 k2, In k1 K -> In k2 K -> LDk SO k1 = LDk SO k2 -> k1 = k2) ->
+  forall s,
+  legacy_net s && (s_height s <? 978392) = false ->
+  (forall t k1, In t (sorted_txs s) -> tx_pool t = Some k1 -> In k1 K /\ LDk SO k1 <> fst k1 /\ LDk SO k1 <> snd k1) ->
+  NoDup (key_pairs (sorted_txs s)) ->
+  (forall t c, In t (sorted_txs s) -> s_coins s !! key0 t = Some c -> as_declared c (out0 t)) ->
+  (forall t c, In t (sorted_txs s) -> s_coins s !! key1 t = Some c -> as_declared c (out1 t)) ->
+  nsum (map (fun t => cd_value (out0 t)) (sorted_txs s)) < U128 ->
+  nsum (map (fun t => cd_value (out1 t)) (sorted_txs s)) < U128 ->
+  (forall s2, process_swaps (create_builtins s) = Ok s2 ->
+     forall k1 p'' m, In k1 K ->
+       pool_deposit (pool_at s2 k1)
+         (nsum (map (fun t => cd_value (out0 t)) (txs_for_pool (List.filter (is_deposit_request s2) (sorted_txs s2)) k1)))
+         (nsum (map (fun t => cd_value (out1 t)) (txs_for_pool (List.filter (is_deposit_request s2) (sorted_txs s2)) k1))) = Ok (p'', m) ->
+       p_liqs (pool_at s2 k1) + m < U128) ->
+  (forall k p1, builtin k -> get_pool (create_builtins s) k = Some p1 ->
+     coin_supply (LDk SO k) (s_coins s) + psum K (LDk SO k) (create_builtins s) + 1 <= p_liqs p1) ->
+  Good s ->
+  (forall k p, builtin k -> get_pool s k = Some p -> live p) ->
+  (s_height s - TIP_909_HEIGHT) / 1000000 < 128 ->
+  (forall s1 sm, preseal_melmint SO s = Ok s1 -> get_pool s1 MS = Some sm -> s_fee_pool s + p_lefts sm + s_tips s < U128) ->
+  forall a, exists s', seal SO s a = Ok s'.
+Proof. exact seal_total_from_invariants. Qed.
+Print Assumptions C09_seal_total_from_invariants.
+
 (* the hypotheses hold together on a concrete state (after the batch of STF/Proofs/Witness.v) *)
 Example C09_seal_witness :
   (forall k1 k2, named w_s1 k1 -> named w_s1 k2 -> poolkey_code k1 = poolkey_code k2 -> k1 = k2) /\
   Good w_s1 /\
   (forall k p, builtin k -> get_pool w_s1 k = Some p -> live p) /\
-  (forall k, builtin k -> forall s2 s3 p3,
+  (forall k, builtin k -> is_Some (get_pool (create_builtins w_s1) k) -> forall s2 s3 p3,
      process_swaps (create_builtins w_s1) = Ok s2 -> process_deposits w_oracle s2 = Ok s3 -> get_pool s3 k = Some p3 ->
      sat_sum (map (fun t => cd_value (out0 t)) (txs_for_pool (List.filter (is_withdraw_request w_oracle s3) (sorted_txs s3)) k)) < p_liqs p3) /\
   (s_height w_s1 - TIP_909_HEIGHT) / 1000000 < 128 /\
